@@ -35,6 +35,10 @@ def build_altered(alter):
     elif kind == "additional":
         def fn(c):
             return code_replace(c, co_consts=c.co_consts + (val,)) if not is_f(c) else c
+    elif kind == "additional_group":
+        # several near-miss constants side by side in one table
+        def fn(c):
+            return code_replace(c, co_consts=c.co_consts + tuple(val)) if not is_f(c) else c
     elif kind == "additional_fn":
         def fn(c):
             return code_replace(c, co_consts=c.co_consts + (val,)) if is_f(c) else c
